@@ -246,6 +246,7 @@ func (l *lexer) run() {
 				l.col += w
 				l.ignore()
 				l.inVerbatim = false
+				continue // the next construct may start right here (e.g. another verbatim block)
 			}
 		} else if strings.HasPrefix(l.input[l.pos:], "{% verbatim %}") { // tag
 			if l.pos > l.start {
@@ -256,6 +257,7 @@ func (l *lexer) run() {
 			l.pos += w
 			l.col += w
 			l.ignore()
+			continue // an empty block: the end tag may start right here
 		}
 
 		if !l.inVerbatim {
